@@ -173,6 +173,7 @@ type c14H struct {
 	classes   map[string]bool
 	ops       []string
 	raceHits  int
+	repoints  int
 	boundary  int
 	cleanerRm int
 }
@@ -241,7 +242,7 @@ func (h *c14H) store(c *c14Conn, tracking, fwd bool) {
 	if tracking {
 		h.ct.put(c.key, h.trackingBytes(c))
 	}
-	if fwd && c.nat {
+	if fwd && c.nat && c.fwdKey != "" {
 		h.ct.put(c.fwdKey, h.fwdBytes(c))
 	}
 }
@@ -375,7 +376,9 @@ func (h *c14H) hook(point string) {
 		}
 		return
 	}
-	switch rapid.IntRange(0, 11).Draw(h.t, "hook@"+point) {
+	switch rapid.IntRange(0, 12).Draw(h.t, "hook@"+point) {
+	case 12:
+		h.repoint("hook@" + point)
 	case 8:
 		h.advance(time.Duration(rapid.IntRange(1, 2000).Draw(h.t, "hookAdvanceNs")))
 		h.ops = append(h.ops, "h-adv")
@@ -385,6 +388,74 @@ func (h *c14H) hook(point string) {
 	case 10, 11:
 		h.packet("hook@" + point)
 	}
+}
+
+// repoint models a client reusing its source port towards the same service after the forward
+// entry of an (idle) NAT pair went away on its own (LRU eviction / the stale-NAT scanner's
+// immediate delete): the forward KEY now belongs to a NEW connection whose forward entry
+// points at a NEW reverse key (both stamped now); the OLD reverse entry stays untouched.
+// If the old pair was already judged and queued, the cleaner must notice that the forward
+// entry no longer points at the queued reverse key.
+func (h *c14H) repoint(why string) {
+	var cands, pend []*c14Conn
+	for _, c := range h.conns {
+		if c.nat && c.fwdKey != "" && h.present(c.fwdKey) && h.present(c.key) {
+			cands = append(cands, c)
+			for _, j := range c.judged {
+				if j.expired && j.seq > c.lastTouch {
+					pend = append(pend, c)
+					break
+				}
+			}
+		}
+	}
+	if len(cands) == 0 || len(h.conns) >= 12 {
+		return
+	}
+	pool := cands
+	if len(pend) > 0 && rapid.IntRange(0, 9).Draw(h.t, "repointPreferJudged") < 8 {
+		pool = pend
+	}
+	old := pool[rapid.IntRange(0, len(pool)-1).Draw(h.t, "repointConn")]
+	judged := false
+	for _, j := range old.judged {
+		if j.expired && j.seq > old.lastTouch {
+			judged = true
+		}
+	}
+	h.repointConn(old, why)
+	h.class("fwd-repointed")
+	if judged && h.inScan {
+		h.repoints++
+		h.class("fwd-repointed-before-clean")
+	}
+}
+
+func (h *c14H) repointConn(old *c14Conn, why string) *c14Conn {
+	fk := old.fwdKey
+	h.ct.del(fk) // forward entry of the old pair goes away on its own
+	old.fwdKey = ""
+	h.seq++
+	h.advance(time.Duration(50)) // the new SYN / datagram arrives a little later
+	n := &c14Conn{id: h.nextID, nat: true, fwdKey: fk}
+	h.nextID++
+	n.st.proto = old.st.proto
+	if n.st.proto == conntrack.ProtoTCP {
+		n.st.a = c14Leg{syn: true}
+	}
+	n.st.lastSeen = h.now() // tracking entry created first ...
+	n.key = h.mkKey(n.st.proto, n.id, false)
+	h.advance(time.Duration(20))
+	n.fwdLast = h.now() // ... forward entry a few ns later (calico_ct_create_nat_fwd)
+	h.seq++
+	n.lastTouch = h.seq
+	n.touchedBy = "created by re-pointing the forward key (" + why + ")"
+	h.conns = append(h.conns, n)
+	h.byKey[n.key] = n
+	h.byKey[fk] = n
+	h.store(n, true, true)
+	h.ops = append(h.ops, "repoint")
+	return n
 }
 
 // pendingExpired lists connections with an "expired" judgement not followed by a packet.
@@ -830,6 +901,10 @@ func TestVerifC14CleanupNeverRemovesLive(t *testing.T) {
 				h.class("lru-eviction")
 				h.ops = append(h.ops, "evict")
 			},
+			"repoint": func(t *rapid.T) {
+				h.t, h.tb = t, t
+				h.repoint("repoint action")
+			},
 			"scan": func(t *rapid.T) {
 				h.t, h.tb = t, t
 				h.scan()
@@ -868,10 +943,10 @@ func TestVerifC14CleanupNeverRemovesLive(t *testing.T) {
 		}
 		sort.Strings(cls)
 		cls = append(cls, fmt.Sprintf("ipv%d", ipver))
-		nt := h.raceHits > 0 || h.boundary > 0
+		nt := h.raceHits > 0 || h.boundary > 0 || h.repoints > 0
 		shape := strings.Join(h.ops, " ") + "|" + strings.Join(cls, ",")
 		rec.SizedCase(nt, shape, len(h.ops), func() any {
-			return map[string]any{"ipver": ipver, "ops": strings.Join(h.ops, " "), "classes": cls, "refresh_between_judgement_and_clean": h.raceHits,
+			return map[string]any{"ipver": ipver, "ops": strings.Join(h.ops, " "), "classes": cls, "refresh_between_judgement_and_clean": h.raceHits, "fwd_repointed_between_judgement_and_clean": h.repoints,
 				"judgements_within_1ns_of_timeout": h.boundary, "removals": h.cleanerRm}
 		}, cls...)
 	})
